@@ -119,7 +119,9 @@ func worker(jobFile string) int {
 		fmt.Fprintln(os.Stderr, "unknown property", job.Prop)
 		return 2
 	}
-	if job.Race && job.Start%2 == 1 {
+	if (job.Race && job.Start%2 == 1) || job.Prop == "C14" {
+		// C14: App.Close reports failing closers through the logger from its goroutines - with the
+		// repository's own logger that code is part of what runs
 		world.InstallRealLogger()
 	}
 	if job.Prop == "C07" && job.Start%2 == 1 {
